@@ -182,7 +182,7 @@ def isPub (path : List Str) : Except Err Bool :=
     | .ok last => .ok (last = "pub".toList)
   else .ok false
 
-/-- google.py:148-173, on the list `path = pathsplit(splitted.path)` -/
+/-- google.py:148-176, on the list `path = pathsplit(splitted.path)` -/
 def parsePath (path : List Str) : Except Err (Option Record) :=
   if path.length < 3 then .ok none
   else
@@ -201,7 +201,7 @@ def parsePath (path : List Str) : Except Err (Option Record) :=
             | .ok true => pubBranch driveType path
             | .ok false => fileBranch driveType path
 
-/-- `parse_google_drive_url(url)` — google.py:139-173 -/
+/-- `parse_google_drive_url(url)` — google.py:139-176 -/
 def parse_google_drive_url (url : Str) : Except Err (Option Record) :=
   match safe_urlsplit url with
   | none => .ok none
@@ -209,7 +209,7 @@ def parse_google_drive_url (url : Str) : Except Err (Option Record) :=
     if !(contains r.netloc "docs.google.com".toList) then .ok none
     else parsePath (pathsplit r.path)
 
-/-- `extract_id_from_google_drive_url(url)` — google.py:176-182 -/
+/-- `extract_id_from_google_drive_url(url)` — google.py:179-185 -/
 def extract_id_from_google_drive_url (url : Str) : Except Err (Option Str) :=
   match parse_google_drive_url url with
   | .error e => .error e
